@@ -61,7 +61,7 @@ def setup():
 
 
 # ------------------------------------------------------------------ scenario generator
-CV_KINDS = ["distanceZ", "distance", "dihedral", "distanceVec", "gyration", "angle", "combo", "fitdist", "rmsd"]
+CV_KINDS = ["distanceZ", "distance", "dihedral", "distanceVec", "gyration", "angle", "combo", "fitdist", "rmsd", "lincomb"]
 
 
 def gen_colvar(r, name, ext_ok=True):
@@ -118,6 +118,10 @@ def gen_colvar(r, name, ext_ok=True):
               "      fittingGroup {", "        atomNumbers %d %d %d" % tuple(ids), "      }",
               "      refPositions (0.0, 0.0, 0.0) (1.0, 0.0, 0.0) (0.0, 1.0, 0.5)", "    }",
               "    group2 { atomNumbers %d }" % a(), "  }"]
+    elif kind == "lincomb":
+        # a component made of components: the atom groups of the nested components are registered a second time in the outer one
+        # (two dependency parents per group; the nested components are reachable only as parents of their groups)
+        L += ["  linearCombination {", "    name lc"] + ["  " + x for x in comp("distanceZ")] + ["  " + x for x in comp("distance")] + ["  }"]
     elif kind == "rmsd":
         ids = r.sample(range(1, NATOMS + 1), 3)
         L += ["  rmsd {", "    atoms { atomNumbers %d %d %d }" % tuple(ids),
@@ -218,6 +222,9 @@ def gen_sequence(r, k, length, with_set=True):
             cvs, biases = [], []
             counters.clear()
             ev.append({"op": "reset"})
+        elif x < 0.71:
+            # the state is written (text or binary) and read back in the same session: everything is found again by NAME
+            ev.append({"op": "saveload", "fmt": r.choice(["text", "binary"]), "file": "st%d" % i})
         elif x < 0.86:
             pos = [(a, V.dyadic(r, -3, 3, 4), V.dyadic(r, -3, 3, 4), V.dyadic(r, -3, 3, 4)) for a in range(1, NATOMS + 1)]
             ev.append({"op": "step", "pos": pos})
@@ -327,6 +334,8 @@ def event_lines(e):
         return ["pos %d %s %s %s" % (a, V.hexf(x), V.hexf(y), V.hexf(z)) for (a, x, y, z) in e["pos"]] + ["step"]
     if op == "set":
         return ["scriptset %s %s %d %d" % (e["kind"], e["name"], e["fid"], e["val"])]
+    if op == "saveload":
+        return ["save %s %s.colvars.state" % (e["fmt"], e["file"]), "load %s" % e["file"]]
     return []
 
 
@@ -531,8 +540,8 @@ def shape_tokens(avail):
 def module_case(ev, blk, prev, cur, lag):
     """the model's module-level operation that corresponds to a history event, as a driver line, or None.
     Returns (line, compare_feature_states)"""
-    if not D.encodable(prev):
-        return None
+    if not D.encodable(prev) or not D.encodable(cur):
+        return None        # e.g. nested components (linearCombination): atom groups with a second parent that is not a child of anything
     head = "MOP %d %d " % (lag, FUEL)
     tail = " " + D.encode_mstate(prev, NATOMS)
     op = ev["op"]
@@ -823,7 +832,7 @@ def check(run):
     if st is None:
         return
     model, exes = st
-    unit = exes["c13unit"]
+    unit = os.environ.get("C13_UNIT_OVERRIDE") or exes["c13unit"]      # e.g. a gcov-instrumented build (coverage measurement)
     d = V.scratch("C13")
 
     replay_witnesses(run, unit, d, tabs_same, model)
@@ -891,9 +900,20 @@ def check(run):
                 lk = D.monitor_links(cur)
                 mlines.append("MOP %d %d check %s" % (lag, FUEL, D.encode_mstate(cur, NATOMS)))
                 mexpect.append(("chk", "%d %d" % (0 if any(c != "A1" for c, _ in lk) else 1, 0 if any(c == "A1" for c, _ in lk) else 1), cur, part, None, None))
+            if ev["op"] == "saveload":
+                run.dist("saveload:" + ev["fmt"])
+                if ("SAVE err=ok" not in blk or "LOAD err=ok" not in blk) and not tainted and prev["objs"]:
+                    tainted = True
+                    run.violation("saveload:error", "after event %d: a state written by this session (%s) is not read back by it: %s" % (
+                        i, ev["fmt"], " ".join(l for l in blk.split("\n") if l.startswith(("SAVE", "LOAD")))), {"kind": "scenario", "scenario": scenario(part)})
             bad = D.monitor(tabs, cur) + D.monitor_links(cur) + D.monitor_engine(tabs, cur)
-            if ev["op"] in ("delbias", "delcv", "step"):
+            if ev["op"] in ("delbias", "delcv", "step", "saveload"):
                 bad += D.monitor_user(tabs, prev, cur)
+            if ev["op"] == "saveload" and D.encodable(prev) and D.encodable(cur) and D.mstate_key(prev) != D.mstate_key(cur) and not tainted:
+                # reading back what was just written changes no dependency state, no link, no atom count
+                tainted = True
+                run.violation("saveload:deps-state", "after event %d: writing the state and reading it back changed the dependency state" % i,
+                              {"kind": "scenario", "scenario": scenario(part)})
             need = D.need_counts(tabs, cur)
             leak = sum(1 for oi, ob in enumerate(cur["objs"]) for g, f in enumerate(ob["fs"]) if f[2] > need[oi][g])
             run.dist("dump:ref_count-above-accounted-need" if leak else "dump:ref_count-equals-accounted-need")
